@@ -78,7 +78,7 @@ func checkMig(c migCase) (inf migInfo, v *verdict) {
 	defer w.Close()
 	w.ListFailed = true
 	w.AssignEven(w.Masters())
-	opts := sim.ProxyOpts{Seeds: w.AllAddrs(), ConnectTimeout: 100 * time.Millisecond}
+	opts := sim.ProxyOpts{Seeds: w.AllAddrs(), ConnectTimeout: 2 * time.Second}
 	if c.Compress {
 		opts.Compression = &redispb.Compression{Enable: true, Algorithm: redispb.Compression_SNAPPY, Threshold: 64}
 	}
@@ -488,7 +488,7 @@ func checkOvertake(c overtakeCase) (observed bool, v *verdict) {
 	}
 	defer w.Close()
 	w.AssignEven(w.Masters())
-	px, err := sim.StartProxy(sim.ProxyOpts{Seeds: w.AllAddrs(), ConnectTimeout: 100 * time.Millisecond})
+	px, err := sim.StartProxy(sim.ProxyOpts{Seeds: w.AllAddrs(), ConnectTimeout: 2 * time.Second})
 	if err != nil {
 		return false, &verdict{"proxy-start", err.Error()}
 	}
